@@ -184,6 +184,14 @@ func main() {
 			return
 		}
 		checkString(r, text, "canonical", true)
+		// the anchor `$` is an item like any other (subexpr_item = anchor | group | match): the same tree with one
+		// anchor inserted at every item position of every sequence, at any depth, and the start anchor in front
+		if strings.HasPrefix(family, "trees_") || family == "quantifiers" {
+			for _, a := range anchored(t) {
+				checkString(r, a, "canonical_with_anchor", true)
+			}
+			checkString(r, "^"+text, "canonical_with_anchor", true)
+		}
 		if t.Size() > mutMax || !strings.HasPrefix(family, "trees_size") || r.Expired() {
 			return
 		}
@@ -328,4 +336,45 @@ func main() {
 	r.Assume("membership in the documented grammar is decided as a context-free grammar (any derivation); `char` is read as any character, the most permissive reading")
 	r.Assume("a panic is counted here but judged by C14")
 	r.Finish()
+}
+
+// anchored returns the prints of t with one `$` item inserted at every item position of every sequence of the tree.
+func anchored(t *regexref.Expr) []string {
+	var total int
+	var print func(e *regexref.Expr, target int, k *int) string
+	print = func(e *regexref.Expr, target int, k *int) string {
+		var alts []string
+		for _, s := range e.Alts {
+			var b strings.Builder
+			for i := 0; i <= len(s.Items); i++ {
+				if *k == target {
+					b.WriteString("$")
+				}
+				*k++
+				if i == len(s.Items) {
+					break
+				}
+				it := s.Items[i]
+				if it.Group != nil {
+					b.WriteString("(" + print(it.Group, target, k) + ")")
+					if it.Q != nil {
+						b.WriteString(strings.TrimPrefix(it.String(), "("+it.Group.String()+")"))
+					}
+				} else {
+					b.WriteString(it.String())
+				}
+			}
+			alts = append(alts, b.String())
+		}
+		return strings.Join(alts, "|")
+	}
+	k := 0
+	_ = print(t, -1, &k)
+	total = k
+	var out []string
+	for target := 0; target < total; target++ {
+		k := 0
+		out = append(out, print(t, target, &k))
+	}
+	return out
 }
